@@ -21,6 +21,8 @@ func init() {
 }
 
 func runC12(c *eng.Ctx) {
+	c.Rule("R12.5", "K5")
+	ruleEmptySubscriberHeapIsDropped(c)
 	c.Rule("R12.8", "K5")
 	ruleRebalanceCountsPartitionsNow(c)
 	p := c.P
